@@ -111,6 +111,24 @@ func expandHost(tok, network string) []string {
 	return out
 }
 
+// unresolvableBefore counts the hosts of the plan that cannot be resolved and
+// are listed before the host that provides target idx.
+func unresolvableBefore(p *RacePlan, idx int) int {
+	n, k := 0, 0
+	for _, h := range p.Hosts {
+		t := expandHost(h, p.Network)
+		if h == invalidHost {
+			n++
+			continue
+		}
+		if k+len(t) > idx {
+			break
+		}
+		k += len(t)
+	}
+	return n
+}
+
 func (p *RacePlan) targets() []string {
 	var out []string
 	for _, h := range p.Hosts {
@@ -298,6 +316,12 @@ func executeRace(t *testing.T, prop string, seed uint64, p *RacePlan) *core.Resu
 	reps := max(1, p.Reps)
 	res.Evals = 1
 	res.Arbitrated = p.Tie
+	if unresolvableBefore(p, 1<<30) > 0 {
+		// a failure that takes no virtual time races with the feeder going back
+		// to wait: the instants of the run depend on the runtime (the verdicts do not)
+		res.Arbitrated = true
+		res.Probe("unresolvable_address_listed")
+	}
 	targets := p.targets()
 	index := map[string]int{}
 	for i, a := range targets {
@@ -573,6 +597,9 @@ func judgeRace(res *core.Result, prop string, p *RacePlan, targets []string, rl 
 				failures++
 			}
 		}
+		// an address that cannot be resolved fails the moment its turn comes:
+		// each one listed before this target's address is such a failure
+		failures += unresolvableBefore(p, cur.idx)
 		justified := early <= failures
 		if justified {
 			res.Probe("failure_wakes_feeder")
@@ -690,7 +717,9 @@ func judgeRace(res *core.Result, prop string, p *RacePlan, targets []string, rl 
 					fail("errors", "Dial returned an error while an attempt was still in flight", "target %d", cr.idx)
 				}
 			}
-			if len(targets) == 0 {
+			if len(targets) == 0 && unresolvableBefore(p, 1<<30) > 0 {
+				res.Probe("only_unresolvable_addresses")
+			} else if len(targets) == 0 {
 				if rl.retErr.Error() != "no address" {
 					fail("errors", "no target but the error is not 'no address'", "%s", errText(rl.retErr))
 				}
